@@ -24,6 +24,11 @@ PROF = Profile(max_depth=3, nonfinite=True, p_value=0.4, wrap=0.06,
 SKIP_ALONE = ()
 
 
+def show(spec):   # noqa: F811  (specs of custom cases are already plain)
+    from ..spec import show as _show
+    return spec if spec.get("k") == "custom" else _show(spec)
+
+
 def check_total(ctx, spec, schema, v, origin):
     """Run all C08 oracles on (schema, v)."""
     from d42 import ValidationException, validate, validate_or_fail
@@ -105,7 +110,28 @@ def check_total(ctx, spec, schema, v, origin):
                                                            "exc": O.exc_info(ex)})
 
 
+def custom_case(ctx, rng, case):
+    """A self-validating custom type (documented style) at the root, behind an alias, and nested: totality there too."""
+    from d42 import optional, schema
+    from .. import custom
+    il = custom.intlike(rng.choice((None, 3)))
+    sch = rng.choice((il, schema.alias("Id", il), schema.list(il), schema.list([il, ...]), schema.dict({"k": il}),
+                      schema.dict({optional("k"): il, ...: ...}), schema.any(il, schema.none), il | schema.str))
+    ctx.table("custom_positions", type(sch).__name__)
+    z = zoo()
+    z.pop("big_str", None)
+    spec = {"k": "custom", "repr": repr(sch)[:120]}
+    for name in rng.sample(sorted(z), 25):
+        v = z[name]
+        for val, how in ((v, "alone"), ([v], "in_list"), ({"k": v}, "in_dict")):
+            ctx.count("custom_type_calls")
+            check_total(ctx, spec, sch, val, ["custom", how, name])
+
+
 def run_case(ctx, rng, case):
+    if case % 20 == 7:
+        ctx.distinct(["custom", case % 160], True)
+        return custom_case(ctx, rng, case)
     spec = gen_spec(rng, PROF)
     from .. import custom
     schema = O.try_build(ctx, spec, wrapper=custom.wrap)   # a few nodes are forwarding custom types (totality holds there too)
